@@ -35,6 +35,7 @@ def run(ck):
     ck.rule("C03-O7", "a null source-location pointer stays null in the copy")
     copy_ctor(ck)
     captured_state(ck)
+    no_pointer_identity(ck)
     for inst in sorted([F.flat(f) for f in F.fn_all(OT + "::process") if f.d.get("inst")], key=lambda f: f.name):
         handoff(ck, inst)
     ck.require(len([f for f in F.fn_all(OT + "::process") if f.d.get("inst")]) >= 2, "OwnThreadHandler instantiations not found")
@@ -87,6 +88,37 @@ def captured_state(ck):
         ck.ob("C03-O8", sitestr(gfn) if bad is None else sitestr(bad[0], bad[1]), bad is None, "%s() returns captured state" % short if bad is None else
               "%s() samples %s when it is called: behind the asynchronous hand-off that is the logger thread / a later moment, not the originator's" % (short, (bad[1].get("callee") or "").split("(")[0]),
               key="LogMessage::%s|ambient" % short)
+
+
+def no_pointer_identity(ck):
+    """after the hand-off file / function / category live in per-message buffers: their addresses identify nothing (and are
+    recycled by the allocator), so nothing in the library may use a `const char *` as a key"""
+    import re
+    F = ck.facts
+    ck.rule("C03-O9", "no container keyed by a raw `const char *` (QHash / QMap / QSet / std::map / std::unordered_map): a memo keyed on the address of a source-location string returns "
+                      "another message's entry once the hand-off has re-homed the strings")
+    KEYED = re.compile(r"\b(QHash|QMultiHash|QMap|QMultiMap|QSet|QCache|std::map|std::unordered_map|std::set|std::unordered_set)<(const )?char ?(const )?\*")
+    hits = []
+    for q, rec in F.records.items():
+        if "QtLogger" not in q:
+            continue
+        for f_ in rec.get("fields", []):
+            if KEYED.search(f_.get("type") or ""):
+                hits.append(("%s (field %s::%s)" % ((rec.get("file") or "").split("/src/")[-1], q.split("::")[-1], f_["name"]), f_["type"]))
+    n = 0
+    for f in F.fns.values():
+        if f.body is None or "/src/qtlogger/" not in (f.file or ""):
+            continue
+        n += 1
+        for d in f.find(lambda x: x.get("k") == "decl"):
+            for v in d.get("vars", []):
+                if KEYED.search(v.get("type") or ""):
+                    hits.append((sitestr(f, d), v["type"]))
+    for site, t in hits:
+        ck.ob("C03-O9", site, False, "%s is keyed by the address of a C string: behind the asynchronous hand-off the strings of different messages share recycled addresses, so a lookup returns another "
+              "message's entry" % t[:80], key="pointer-key|%s" % site.split("(")[-1].rstrip(")"))
+    if not hits:
+        ck.ob("C03-O9", "src/qtlogger", True, "%d functions and the library's classes: no container keyed by a raw const char *" % n, key="pointer-key|none")
 
 
 def copy_ctor(ck):
@@ -174,6 +206,17 @@ def handoff(ck, proc):
     post = [n for n in proc.calls("QCoreApplication::postEvent")]
     base = [n for n in proc.calls() if n.get("qualified") and name_is(n.get("callee"), "process") and skip_copies(n.get("obj")).get("k") == "this"]
     incs = [n for n in proc.calls() if n.get("ck") == "member" and is_this_field(n.get("obj"), OT + "::m_pendingCount") and name_is(n.get("callee"), ("fetchAndAddOrdered", "fetchAndAddRelaxed", "fetchAndAddAcquire", "fetchAndAddRelease", "ref", "operator++"))]
+    if not post:
+        # another queued hand-off mechanism: QMetaObject::invokeMethod / QTimer::singleShot / a signal. It only queues when the connection
+        # type says so; the default (Qt::AutoConnection) calls the functor directly when the caller already is on the receiver's thread
+        inv = [n for n in proc.calls() if strip_tmpl(n.get("callee") or "").endswith(("QMetaObject::invokeMethod", "QTimer::singleShot"))]
+        for n in inv:
+            en_q = [x for a_ in n.get("args", []) for x in walk(a_) if x.get("k") == "ref" and (x.get("name") or "").endswith(("Qt::QueuedConnection", "Qt::BlockingQueuedConnection"))]
+            blocking = any((x.get("name") or "").endswith("BlockingQueuedConnection") for x in en_q)
+            if not en_q or blocking:
+                ck.ob("C03-O3", sitestr(proc, n), False, "%s: the hand-off uses %s %s: a log call made on the logger's own thread (a sink reporting a write error) runs the whole pipeline inside the sink "
+                      "that is busy, ahead of everything queued, with the hand-off mutex held" % (tag, (n.get("callee") or "").split("<")[0], "with Qt::BlockingQueuedConnection (the logging call waits for the sinks)" if blocking else
+                      "without Qt::QueuedConnection (Qt::AutoConnection calls directly when caller and receiver share a thread)"), key="OwnThreadHandler::process|not-queued")
     ck.require(len(post) == 1, "%s::process posts %d events" % (tag, len(post)))
     p = post[0]
     ps = g.site_of(p)
